@@ -753,11 +753,11 @@ class ZeroSigH0SingleDatasetTCLLHRatio(
             tl=None):
         """Calculates the second derivative w.r.t. ns of the log-likelihood
         ratio function.
-        This method tries to use cached values for the first derivative
-        w.r.t. ns of the log-likelihood ratio function for the individual
-        events. If cached values don't exist or do not match the given fit
-        parameter values, they will get calculated automatically by calling the
-        evaluate method with the given fit parameter values.
+        This method uses the values of the first derivative w.r.t. ns of the
+        log-likelihood ratio function for the individual events, which were
+        cached by the last call of the evaluate method. Hence, the evaluate
+        method must have been called with the same fit parameter values before
+        calling this method. A RuntimeError is raised if no cached values exist.
 
         Parameters
         ----------
